@@ -527,8 +527,25 @@ class RelStore:
         self.fault = None             # callable(idx, sql) -> raise, or None
         self.n_exec = 0
         self.closed = False
+        self.total_changes = z3.IntVal(0)   # sqlite3.Connection.total_changes (rows inserted/updated/deleted)
         self.on_event = None          # callback(kind, detail) for crash-point numbering
         self.observers = []           # callables invoked on commit (C09)
+
+    def __getattribute__(self, name):
+        if name == "total_changes":
+            from .engine import W
+            return W(object.__getattribute__(self, "total_changes"), "i")
+        return object.__getattribute__(self, name)
+
+    def reopen(self):
+        """a new connection object to the same database (what a restarted process holds): committed
+        content only"""
+        n = RelStore(self.label)
+        n._restore(self.committed)
+        n.committed = Snapshot(n)
+        n.foreign_keys = self.foreign_keys
+        n.fault = None
+        return n
 
     # ---- catalog ----
     def _create_table(self, name, cols):
@@ -1029,6 +1046,7 @@ class RelStore:
                 if not E().decide(ok):
                     raise sqlite3.IntegrityError("FOREIGN KEY constraint failed")
         tb.rows.append(Row(z3.BoolVal(True), rv, rn))
+        self._changed([z3.BoolVal(True)])
         return Cursor(self, [], lastrowid=rid)
 
     def _update(self, st, params):
@@ -1056,8 +1074,13 @@ class RelStore:
                 else:
                     r.n[c] = z3.simplify(z3.If(m, z3.BoolVal(False), r.n[c]))
                     r.v[c] = z3.simplify(z3.If(m, coerce(x, tb.sort[c], "%s.%s" % (table, c)), r.v[c]))
+        self._changed(ms)
         cur = Cursor(self, [])
         return cur
+
+    def _changed(self, ms):
+        n = z3.Sum(*[z3.If(m, 1, 0) for m in ms]) if ms else z3.IntVal(0)
+        self.__dict__["total_changes"] = z3.simplify(object.__getattribute__(self, "total_changes") + n)
 
     def _delete(self, st, params):
         _, table, where = st
@@ -1081,6 +1104,7 @@ class RelStore:
                 raise sqlite3.IntegrityError("FOREIGN KEY constraint failed")
         for r, m in zip(tb.rows, ms):
             r.p = z3.simplify(z3.And(r.p, z3.Not(m)))
+        self._changed(ms)
         return Cursor(self, [])
 
     # ---- harness-side construction ----
